@@ -22,6 +22,7 @@ package transaction
 
 //@ func (*Reconciler).commitChange(r, ctx, transaction, configuration) (result, ok, err)
 //@   props C20
+//@   safe
 //@   requires v3Ready(r, transaction, configuration) && transaction.ID.Index > 0
 // history invariant ASSUMED for this per-step slice (established by the PENDING step below, kept because only this
 // transaction's own commit moves the cursor from Index-1 to Index): an in-progress commit sits at the cursor
@@ -39,6 +40,7 @@ package transaction
 // (its plugin-not-found branch records the failure there, also when it is called for a change).
 //@ func (*Reconciler).applyValues(r, ctx, transaction, configuration, values) (ok, err)
 //@   props C20
+//@   safe
 //@   requires v3Ready(r, transaction, configuration)
 //@   modifies lastSetConnID, deviceSetFailures, deviceSetCalls, deviceCode, lastSetElectionLow, lastSetElectionHigh, lastSetHasArbitration, lastSetConn, lastSetRequest, lastTopoGetOK, lastConnGetOK, lastGetPluginOK, v3TxnStatusWrites, v3LastTxnWriteAtCfgWrites, transaction.ObjectMeta, transaction.Status.Rollback.Apply.State, transaction.Status.Rollback.Apply.Failure, transaction.Status.Rollback.Apply.End
 //@   ensures {C20} at-most-one-set: deviceSetCalls <= old(deviceSetCalls) + 1 && (ok ==> deviceSetCalls == old(deviceSetCalls) + 1) && (deviceSetCalls > old(deviceSetCalls) ==> ok)
@@ -52,6 +54,7 @@ package transaction
 
 //@ func (*Reconciler).applyChange(r, ctx, transaction, configuration) (result, ok, err)
 //@   props C20
+//@   safe
 //@   requires v3Ready(r, transaction, configuration) && transaction.ID.Index > 0
 //@   ensures {C20} apply-only-after-commit: old(v3CommitState(transaction)) != configapi.TransactionPhaseStatus_COMPLETE ==> v3ApplyState(transaction) == old(v3ApplyState(transaction)) && deviceSetCalls == old(deviceSetCalls) && v3CfgStatusWrites == old(v3CfgStatusWrites) && v3TxnStatusWrites == old(v3TxnStatusWrites)
 //@   ensures {C20} apply-starts-in-ordinal-order: old(v3ApplyState(transaction)) == configapi.TransactionPhaseStatus_PENDING && v3ApplyState(transaction) != configapi.TransactionPhaseStatus_PENDING ==> old(configuration.Applied.Ordinal) == transaction.Status.Change.Ordinal - 1 && (v3ApplyState(transaction) == configapi.TransactionPhaseStatus_IN_PROGRESS || v3ApplyState(transaction) == configapi.TransactionPhaseStatus_ABORTED)
@@ -70,6 +73,7 @@ package transaction
 // currently holds (the latest committed change), and restores the revision that change displaced.
 //@ func (*Reconciler).commitRollback(r, ctx, transaction, configuration) (result, ok, err)
 //@   props C20
+//@   safe
 //@   requires v3Ready(r, transaction, configuration) && transaction.ID.Index > 0
 //@   ensures {C20} rollback-commit-only-of-the-latest-change: old(v3RbCommitState(transaction)) == configapi.TransactionPhaseStatus_PENDING && v3RbCommitState(transaction) != configapi.TransactionPhaseStatus_PENDING ==> old(configuration.Committed.Revision) == transaction.ID.Index && v3RbCommitState(transaction) == configapi.TransactionPhaseStatus_IN_PROGRESS && configuration.Committed.Target == transaction.Status.Rollback.Index
 //@   ensures {C20} rollback-restores-the-displaced-revision: configuration.Committed.Revision != old(configuration.Committed.Revision) ==> old(v3RbCommitState(transaction)) == configapi.TransactionPhaseStatus_IN_PROGRESS && old(configuration.Committed.Revision) == transaction.ID.Index && configuration.Committed.Revision == transaction.Status.Rollback.Index && configuration.Committed.Ordinal == old(configuration.Committed.Ordinal) + 1 && configuration.Committed.Index == transaction.ID.Index
@@ -81,6 +85,7 @@ package transaction
 //@ spec v3RbApplyState(t *configapi.Transaction) int = t.Status.Rollback.Apply.State
 //@ func (*Reconciler).applyRollback(r, ctx, transaction, configuration) (result, ok, err)
 //@   props C20
+//@   safe
 //@   requires v3Ready(r, transaction, configuration) && transaction.ID.Index > 0
 //@   ensures {C20} rollback-apply-only-after-its-commit: old(v3RbCommitState(transaction)) != configapi.TransactionPhaseStatus_COMPLETE ==> v3RbApplyState(transaction) == old(v3RbApplyState(transaction)) && v3ApplyState(transaction) == old(v3ApplyState(transaction)) && deviceSetCalls == old(deviceSetCalls) && v3CfgStatusWrites == old(v3CfgStatusWrites) && v3TxnStatusWrites == old(v3TxnStatusWrites)
 //@   ensures {C20} rollback-apply-starts-in-ordinal-order: old(v3RbApplyState(transaction)) == configapi.TransactionPhaseStatus_PENDING && v3RbApplyState(transaction) != configapi.TransactionPhaseStatus_PENDING ==> v3RbApplyState(transaction) == configapi.TransactionPhaseStatus_IN_PROGRESS && old(configuration.Applied.Ordinal) == transaction.Status.Rollback.Ordinal - 1
